@@ -184,7 +184,7 @@ def read_lammps(f: Any, ndim: int) -> SingleSnapshot:
                 atom_index = int(item[0]) - 1
                 particle_type[atom_index] = int(item[1])
                 positions[atom_index] = [
-                    float(j) for j in item[2: ndim + 2]] * boxlength
+                    float(j) for j in item[2: ndim + 2]] * boxlength + boxbounds[:, 0]
 
         snapshot = SingleSnapshot(
             timestep=timestep,
